@@ -10,6 +10,21 @@ CLAIMS = {
          "64-bit host only exercised (16/32-bit DedupCast rows proved, not run). " + TB, "5 C01"),
  "C02": ("Theorems C02_isolation, C02_load_local, C02_roundtrip_unsigned, C02_roundtrip_signed_full, C02_setter_sequences (induction over any list of disjoint setter calls) over the ops.rs model; the signed-narrow clause is refuted by C02_signed_narrow_refuted (genuine defect D1, known finding) with C02_roundtrip_signed_narrow_partial as the strongest true statement; tie = exhaustive-geometry correspondence + an implementation-only round-trip/isolation oracle.",
          "Generated set_x()/x() sequences (L2) are covered through the C06 check, not here. " + TB, "5 C02"),
+
+ "C05": ("Unbounded theorems over an interaction model of register.rs (blocking and async halves transcribed separately): C05_write, C05_write_with_zero, C05_read, C05_modify (no write after a failed read), C05_async_equiv / C05_async_equiv_seq (same interface calls and results for every oracle, closure and Pending schedule); tie = exhaustive scripted histories (ops x error positions x Pending counts) run through the real crate with mock interfaces and a hand-rolled executor vs the extracted model.",
+         "The compiler's async lowering is modelled as 'Pending any finite number of times at each await' and tied only by the correspondence; the ref-reset clause is covered with C08. " + TB, "5 C05"),
+ "C09": ("Theorems C09_dispatch_none/in/out/inout and C09_async_equiv over the transcribed command.rs for all oracles, closures, sizes and schedules; tie = exhaustive scripted histories over the four shapes x sizes x error/Pending patterns vs the extracted model.",
+         "Async lowering modelled as arbitrary finite Pending counts. Generator side (unit type iff no fields) is observed in C04/C19. " + TB, "5 C09"),
+ "C10": ("Theorems C10_passthrough, C10_write_all(+meaning), C10_read_exact(+meaning), C10_async_equiv, C10_trait_equiv (incl. termination by fuel lemma) over the transcribed buffer.rs and the embedded-io provided methods; tie = every outcome sequence over {accept 1..n, 0, Err} at the bound x entry points (inherent / trait / async) vs the extracted model.",
+         "embedded-io 0.6.1 provided methods transcribed from the registry source. " + TB, "5 C10"),
+ "C06": ("C06_emitted_sets_are_the_declared_ones, C06_getter_reads_declared_range / C06_setter_writes_declared_range (composition of the emission model with the C01 layout theorems), C06_carrier_minimal, C06_getter_iff_readable / setter_iff_writable, C06_effective_byte_order; tie = every field-set fact of the real token stream vs FieldSetGen.v on the real MIR in all four syntaxes + an abstract-definition oracle for effective orders/access (finds D5, known finding) + compiled field sets driven with bytes vs the Coq reference interpreter.",
+         "From/Into/bit-operator bodies are constant emitted text: observed (L2), not modelled. Name normalisation is modelled in C14 (Case.v). " + TB, "5 C06"),
+ "C11": ("C11_accept_iff_wf (both directions, every device, any nesting), C11_error_names_object, C11_overlap_all_pairs over the transcribed byte_order_specified / bool_fields_checked / bit_ranges_validated; tie = boundary-biased layouts in four syntaxes through the real transform_*, model evaluated on the MIR the real front end produced, accept/reject + error kind + names compared; generator panic = violation.",
+         "Text->MIR front ends are exercised, not modelled (C16). " + TB, "5 C11"),
+ "C17": ("C17_ops_exist_iff etc. proved over tables TRANSLATED from lib.rs / register.rs / buffer.rs on every run (a source edit that changes which operations an access offers breaks the proof), plus field accessor and effective-access theorems; tie for 'does / does not compile': a probe crate with one function per (placement, access, operation), rustc diagnostics mapped per probe and compared with the model's forbidden set.",
+         "rustc is the observer for compilation; translator is regex/lexer-level; manifest-level defaults are known finding D5; WO fields hit D7. " + TB, "5 C17"),
+ "C20": ("C20_accepted_output_order_independent, C20_error_order_refuted (+partial), C20_cli_status, C20_dispatch_on_extension over models of the hash-container passes (iteration order an explicit parameter) and of the CLI/macro dispatch; run-time facts (process/thread/hash-seed independence, files, macro expansion) tied by repeated CLI processes, threads, -o vs stdout, and a create_device! crate next to included CLI output.",
+         "Partial by nature: determinism of the real binary is observed over K runs, not proved; D13 (error choice among several dangling refs) is a known finding. " + TB, "5 C20"),
  "C03": ("Ops half: C03_ops_safe_load/store and C03_store_footprint — in the model every out-of-slice access, usize underflow or over-wide shift is a Fail, and in-bounds calls are proved never to Fail and to change no byte outside the covered bytes; tie = canary-guarded debug build of the real ops vs the model on the exhaustive geometry. Generator half: accepted definitions only emit in-bounds call sites (C03_accepted_accessors_in_bounds) checked against the call sites of real generator output.",
          "Release-build UB is not observable directly; debug_assert!/canaries/Miri (thorough) are the observers. " + TB, "5 C03"),
 }
